@@ -154,8 +154,9 @@ theorem check_none {env : Env} {a b : QC} {ha hb : View} {ms : List Member} {m :
 /-- evidence `x` shows that key `k` double-signed under the committee of root height `h`:
 two certificates with EQUAL views, each individually valid against that committee (partial allowed),
 over DIFFERENT payloads, both containing `k`'s own signature; in a phase after PROPOSE; not below the
-minimum evidence height the controller answered for that root height -/
-structure Equivocation (env : Env) (x : Option DSE) (k : KeyId) (h : UInt64) : Prop where
+minimum evidence height the controller answered (asked as of the replica's current root height; before
+repair c09f5c7, `preFix = true`, as of the evidence's own root height) -/
+structure Equivocation (preFix : Bool) (env : Env) (x : Option DSE) (k : KeyId) (h : UInt64) : Prop where
   ex : ∃ a b hd ms sa sb minH,
     x = some ⟨some a, some b⟩ ∧
     ValidQC env a ms hd sa ∧ ValidQC env b ms hd sb ∧
@@ -163,7 +164,7 @@ structure Equivocation (env : Env) (x : Option DSE) (k : KeyId) (h : UInt64) : P
     signPayload a hd ≠ signPayload b hd ∧
     (k, signPayload a hd) ∈ sa.parts ∧ (k, signPayload b hd) ∈ sb.parts ∧
     phasePropose < hd.phase ∧
-    env.minEvidenceAt h = some minH ∧ minH ≤ h
+    env.minEvidenceAt (if preFix then h else env.rootHeight) = some minH ∧ minH ≤ h
 
 theorem unpack_ok {x : Option DSE} {a b : QC} {ha hb : View} (h : unpack x = .ok (a, b, ha, hb)) :
     x = some ⟨some a, some b⟩ ∧ a.header = some ha ∧ b.header = some hb := by
@@ -180,9 +181,9 @@ theorem unpack_ok {x : Option DSE} {a b : QC} {ha hb : View} (h : unpack x = .ok
   · contradiction
 
 /-- **one piece of evidence**: every key `processOne` returns equivocated -/
-theorem processOne_sound {env : Env} {x : Option DSE} {h : UInt64} {ks : List KeyId}
-    (hp : processOne env x = .ok (h, ks)) : ∀ k ∈ ks, Equivocation env x k h := by
-  unfold processOne at hp
+theorem processOne_sound {preFix : Bool} {env : Env} {x : Option DSE} {h : UInt64} {ks : List KeyId}
+    (hp : processOneWith preFix env x = .ok (h, ks)) : ∀ k ∈ ks, Equivocation preFix env x k h := by
+  unfold processOneWith at hp
   split at hp; · contradiction
   rename_i a b ha hb hun
   split at hp; · contradiction
@@ -290,12 +291,12 @@ theorem addSigner_mem {acc : List DS} {k : KeyId} {h : UInt64} {d : DS} (hd : d 
 
 /-- the invariant of the accumulator: every entry has a height, and every (id, height) in it is backed
 by a piece of evidence of the list -/
-def Backed (env : Env) (be : List (Option DSE)) (acc : List DS) : Prop :=
-  ∀ d ∈ acc, d.heights ≠ [] ∧ ∀ h ∈ d.heights, env.alreadySlashed d.id h = false ∧ ∃ x ∈ be, Equivocation env x d.id h
+def Backed (preFix : Bool) (env : Env) (be : List (Option DSE)) (acc : List DS) : Prop :=
+  ∀ d ∈ acc, d.heights ≠ [] ∧ ∀ h ∈ d.heights, env.alreadySlashed d.id h = false ∧ ∃ x ∈ be, Equivocation preFix env x d.id h
 
-theorem addSigners_backed {env : Env} {be : List (Option DSE)} {x : Option DSE} (hx : x ∈ be) {h : UInt64}
-    (ks : List KeyId) (hks : ∀ k ∈ ks, Equivocation env x k h) (acc : List DS) (hacc : Backed env be acc) :
-    Backed env be (addSigners env h ks acc) := by
+theorem addSigners_backed {preFix : Bool} {env : Env} {be : List (Option DSE)} {x : Option DSE} (hx : x ∈ be) {h : UInt64}
+    (ks : List KeyId) (hks : ∀ k ∈ ks, Equivocation preFix env x k h) (acc : List DS) (hacc : Backed preFix env be acc) :
+    Backed preFix env be (addSigners env h ks acc) := by
   induction ks generalizing acc with
   | nil => exact hacc
   | cons k ks ih =>
@@ -315,9 +316,9 @@ theorem addSigners_backed {env : Env} {be : List (Option DSE)} {x : Option DSE} 
         · rw [← e0]; exact (hacc d0 hd0).2 h' hh0
         · rw [e1, e2]; exact ⟨by simpa using hns, x, hx, hks k List.mem_cons_self⟩
 
-theorem processDSEFrom_backed {env : Env} {be : List (Option DSE)} (xs : List (Option DSE)) (hsub : ∀ x ∈ xs, x ∈ be)
-    (acc : List DS) (hacc : Backed env be acc) {res : List DS} (h : processDSEFrom env xs acc = .ok res) :
-    Backed env be res := by
+theorem processDSEFrom_backed {preFix : Bool} {env : Env} {be : List (Option DSE)} (xs : List (Option DSE)) (hsub : ∀ x ∈ xs, x ∈ be)
+    (acc : List DS) (hacc : Backed preFix env be acc) {res : List DS} (h : processDSEFrom preFix env xs acc = .ok res) :
+    Backed preFix env be res := by
   induction xs generalizing acc with
   | nil => simp only [processDSEFrom, Except.ok.injEq] at h; subst h; exact hacc
   | cons x xs ih =>
@@ -328,13 +329,13 @@ theorem processDSEFrom_backed {env : Env} {be : List (Option DSE)} (xs : List (O
       (addSigners_backed (hsub x List.mem_cons_self) ks (processOne_sound hone) acc hacc) h
 
 /-- **ProcessDSE**: every (id, height) it returns is backed by an equivocation proved by one of its inputs -/
-theorem processDSE_backed {env : Env} {be : List (Option DSE)} {res : List DS} (h : processDSE env be = .ok res) :
-    Backed env be res :=
+theorem processDSE_backed {preFix : Bool} {env : Env} {be : List (Option DSE)} {res : List DS}
+    (h : processDSEWith preFix env be = .ok res) : Backed preFix env be res :=
   processDSEFrom_backed be (fun _ hx => hx) [] (fun _ hd => by simp at hd) h
 
 /-- any failing element makes the whole call fail -/
-theorem processDSEFrom_error {env : Env} (xs : List (Option DSE)) (acc : List DS) {x : Option DSE} (hx : x ∈ xs)
-    {e : String} (he : processOne env x = .error e) : ∃ e', processDSEFrom env xs acc = .error e' := by
+theorem processDSEFrom_error {preFix : Bool} {env : Env} (xs : List (Option DSE)) (acc : List DS) {x : Option DSE} (hx : x ∈ xs)
+    {e : String} (he : processOneWith preFix env x = .error e) : ∃ e', processDSEFrom preFix env xs acc = .error e' := by
   induction xs generalizing acc with
   | nil => simp at hx
   | cons y ys ih =>
@@ -346,9 +347,9 @@ theorem processDSEFrom_error {env : Env} (xs : List (Option DSE)) (acc : List DS
       · exact ih _ hx
 
 /-- **AddDSE**: evidence is only added to a pool when it proves somebody's equivocation -/
-theorem addDSE_sound {env : Env} {dup : Bool} {x : Option DSE} (h : addDSE env dup x = .added) :
-    ∃ k hh, Equivocation env (x.map strip) k hh := by
-  unfold addDSE at h
+theorem addDSE_sound {preFix : Bool} {env : Env} {dup : Bool} {x : Option DSE} (h : addDSEWith preFix env dup x = .added) :
+    ∃ k hh, Equivocation preFix env (x.map strip) k hh := by
+  unfold addDSEWith at h
   split at h; · contradiction
   split at h; · contradiction
   rename_i bad hbad
@@ -387,5 +388,32 @@ theorem justified_spec {localDS : List DS} {ds : DS} (h : justified localDS ds =
   simp only [justified, List.any_eq_true, Bool.and_eq_true, beq_iff_eq, List.all_eq_true, List.contains_iff_mem] at h
   obtain ⟨s, hs, e, hh⟩ := h
   exact ⟨s, hs, e, hh⟩
+
+/-- **ValidateByzantineEvidence**: every listed validator, and every height it is listed for, is backed by an
+equivocation proved by the attached evidence -/
+theorem validate_sound {preFix : Bool} {env : Env} {slash : List (Option DS)} {be : List (Option DSE)}
+    (hacc : validateByzantineEvidenceWith preFix env (some slash) be = none) {ds : DS} (hds : some ds ∈ slash) :
+    (∃ x ∈ be, ∃ h, Equivocation preFix env x ds.id h) ∧
+    (∀ h ∈ ds.heights, ∃ x ∈ be, Equivocation preFix env x ds.id h) := by
+  unfold validateByzantineEvidenceWith at hacc
+  simp only at hacc
+  split at hacc
+  · rename_i hlen
+    have : slash = [] := List.eq_nil_of_length_eq_zero (by simpa using hlen)
+    rw [this] at hds; simp at hds
+  · split at hacc; · contradiction
+    rename_i localDS hproc
+    have hb := processDSE_backed hproc
+    obtain ⟨s, hs, hid, hh⟩ := justified_spec (validateList_justified hacc ds hds)
+    obtain ⟨hne, hback⟩ := hb s hs
+    constructor
+    · cases hsh : s.heights with
+      | nil => exact absurd hsh hne
+      | cons h0 _ =>
+        obtain ⟨_, x, hx, hex⟩ := hback h0 (by rw [hsh]; exact List.mem_cons_self)
+        exact ⟨x, hx, h0, hid ▸ hex⟩
+    · intro h hmem
+      obtain ⟨_, x, hx, hex⟩ := hback h (hh h hmem)
+      exact ⟨x, hx, hid ▸ hex⟩
 
 end Canopy.Evidence
